@@ -45,8 +45,20 @@ func c10Truncations(complete c10Body) []c10Body {
 	return out
 }
 
+// c10Trailing: a complete, acceptable answer that is followed by something else, or that stops short of
+// its announced length right after the closing brace — malformed / truncated answers that a decoder
+// reading just the first JSON value would not notice.
+func c10Trailing(complete c10Body) []c10Body {
+	return []c10Body{
+		{Name: "complete-then-trailing-text", Body: complete.Body + "\n<html><body>502 Bad Gateway</body></html>"},
+		{Name: "complete-then-second-object", Body: complete.Body + `{"email":"not.vouched@evil.test","email_verified":true}`},
+		{Name: "complete-but-announced-longer", Body: complete.Body + strings.Repeat(" ", 64), Cut: len(complete.Body)},
+	}
+}
+
 func c10TokenBodies(provider string, thorough bool) []c10Body {
 	b := c10TokenBodiesBase(provider)
+	b = append(b, c10Trailing(b[0])...)
 	if thorough {
 		b = append(b, c10Truncations(b[0])...)
 	}
@@ -97,6 +109,7 @@ func c10TokenBodiesBase(provider string) []c10Body {
 
 func c10UserinfoBodies(provider string, thorough bool) []c10Body {
 	b := c10UserinfoBodiesBase(provider)
+	b = append(b, c10Trailing(b[0])...)
 	if thorough {
 		ver := provider == "okta"
 		b = append(b,
@@ -319,7 +332,7 @@ func init() {
 	fw.Register(&fw.Check{
 		ID:    "C10",
 		Level: "fault_enumeration",
-		Rule: "full product of identity-provider answers, with the userinfo answer enumerated on demand (only on executions that reach that call): token endpoint status {200,400,401,403,429,500,503} x body {complete, missing fields, id_token with 0/1/2/4 segments, bad base64, bad JSON, email_verified false/absent/string, empty or non-string email, truncated JSON, empty, HTML, array, null} x connection reset; userinfo status {200,401,500,429} x body {verified, unverified, absent flag, string flag, empty/no email, truncated, empty, HTML, null} x connection reset; " +
+		Rule: "full product of identity-provider answers, with the userinfo answer enumerated on demand (only on executions that reach that call): token endpoint status {200,400,401,403,429,500,503} x body {complete, missing fields, id_token with 0/1/2/4 segments, bad base64, bad JSON, email_verified false/absent/string, empty or non-string email, truncated JSON, empty, HTML, array, null, a complete answer followed by text / by a second object / stopping short of its announced length} x connection reset; userinfo status {200,401,500,429} x body {verified, unverified, absent flag, string flag, empty/no email, truncated, empty, HTML, null} x connection reset; " +
 			"targets: GoogleProvider.Redeem, OktaProvider.Redeem, AmazonCognitoProvider.Redeem (URLs pointed at the scripted IdP) and Okta and Cognito end-to-end through the unmodified NewAuthenticatorMux /callback; " +
 			"thorough adds: EVERY proper prefix of the complete token answer and of the complete userinfo answer as a cleanly framed body, the same answers cut on the wire at every 8th byte (full Content-Length announced, connection closed early), statuses 302/404/502 (userinfo: 302/403/404/503), email_verified as number/null/\"false\", email as array/null, a JSON array, two concatenated objects; " +
 			"oracle: a session exists => the provider answered 200 with a complete answer for exactly that email, verified where Google/Okta require it; every other answer => an error (>= 400 page, no session cookie); a panic counts as a crash of the request; " +
